@@ -1,6 +1,7 @@
 (* C06 - Values of every size are returned bit-exact: the storage format. *)
 From Coq Require Import NArith List Bool.
 From PDB Require Import Gen.Consts Model.ValueTable Proofs.ValueTableProofs.
+From PDB Require Model.StorageCheck Model.TableAlloc Proofs.ValueAllocCompose.
 Import ListNotations.
 Open Scope N_scope.
 
@@ -62,6 +63,41 @@ Example C06_nonvacuous :
   = Some (false, prefix ++ payload).
 Proof. vm_compute. repeat split; reflexivity. Qed.
 
+(* Composed with the allocator (C14): in EVERY table the allocator can reach - by any sequence of values stored,
+   removed and replaced in place - a value written into the slots the allocator hands out reads back exactly,
+   whatever the other slots hold: for a new value (alloc_chain takes as many slots as parts_needed says, from the free
+   list first) and for a value that replaces the j-th live value (areplace: the old chain reused, extended or cut). *)
+Module Alloc.
+Import PDB.Model.StorageCheck PDB.Model.TableAlloc PDB.Proofs.ValueAllocCompose.
+Theorem C06_stored_value_reads_back_in_every_reachable_table :
+  forall es c prefix payload T fuel, 10 + N.of_nat (length prefix) < es -> (length payload + 1 < fuel)%nat ->
+  forall ops d' l, es - 2 < N.of_nat (length prefix + length payload) ->
+  alloc_chain (parts_needed fuel es (N.of_nat (length prefix)) (N.of_nat (length payload))) (fst (fold_left astep ops (empty_table, []))) = (d', l) ->
+  read_chain fuel true (tbl_put T (write_chain fuel es true c prefix payload l)) (hd 0 l) true = Some (c, prefix ++ payload).
+Proof. exact stored_value_reads_back. Qed.
+Theorem C06_replaced_value_reads_back_in_every_reachable_table :
+  forall es c prefix payload T fuel, 10 + N.of_nat (length prefix) < es -> (length payload + 1 < fuel)%nat ->
+  forall ops j old d' l, es - 2 < N.of_nat (length prefix + length payload) ->
+  nth_error (snd (fold_left astep ops (empty_table, []))) j = Some old ->
+  areplace (fst (fold_left astep ops (empty_table, []))) old (parts_needed fuel es (N.of_nat (length prefix)) (N.of_nat (length payload)) - 1) = (d', l) ->
+  read_chain fuel true (tbl_put T (write_chain fuel es true c prefix payload l)) (hd 0 l) true = Some (c, prefix ++ payload).
+Proof. exact replaced_value_reads_back. Qed.
+
+(* non-vacuity: entries of 64 bytes; a table with a hole in its free list (values of 3, 1 and 2 slots stored, the
+   first removed); a 150-byte value needs 3 slots and gets the freed ones back (3, 2, 1: the free list is a stack); then the
+   2-slot value is replaced by it in place: its chain is kept and extended by one slot *)
+Definition ax_ops : list aop := [AStore 2; AStore 0; AStore 1; ARemove 0].
+Definition ax_payload : bytes := map N.of_nat (seq 0 150).
+Example C06_allocated_chain_history :
+  let st := fold_left astep ax_ops (empty_table, []) in
+  parts_needed 200 64 0 150 = 3%nat /\
+  snd (alloc_chain 3 (fst st)) = [3; 2; 1] /\
+  nth_error (snd st) 1 = Some [5; 6] /\
+  snd (areplace (fst st) [5; 6] 2) = [5; 6; 3] /\
+  read_chain 200 true (tbl_put (fun _ => None) (write_chain 200 64 true false [] ax_payload [5; 6; 3])) 5 true = Some (false, ax_payload).
+Proof. vm_compute. repeat split; reflexivity. Qed.
+End Alloc.
+
 Print Assumptions C06_tiers_ok.
 Print Assumptions C06_markers_disjoint.
 Print Assumptions C06_slot_roundtrip.
@@ -69,3 +105,5 @@ Print Assumptions C06_chain_roundtrip_multipart.
 Print Assumptions C06_chain_roundtrip_single.
 Print Assumptions C06_select_tier_fits.
 Print Assumptions C06_multipart_needs_two_parts.
+Print Assumptions Alloc.C06_stored_value_reads_back_in_every_reachable_table.
+Print Assumptions Alloc.C06_replaced_value_reads_back_in_every_reachable_table.
